@@ -380,6 +380,35 @@ func (a *boundAn) exitBounded(h *ssa.BasicBlock, body map[*ssa.BasicBlock]bool, 
 			}
 		}
 	}
+	// walking a linked structure towards nil: stays while p != nil where p is a header phi advanced only by p = p.field
+	if op == token.NEQ && (isNilConst(bin.X) || isNilConst(bin.Y)) {
+		pv := bin.X
+		if isNilConst(pv) {
+			pv = bin.Y
+		}
+		if phi, ok := pv.(*ssa.Phi); ok && phi.Block() == h {
+			if _, isPtr := phi.Type().Underlying().(*types.Pointer); isPtr {
+				walk := true
+				for i, e := range phi.Edges {
+					if !body[h.Preds[i]] {
+						continue
+					}
+					ld, isLd := e.(*ssa.UnOp)
+					if !isLd || ld.Op != token.MUL {
+						walk = false
+						continue
+					}
+					fa, isFA := ld.X.(*ssa.FieldAddr)
+					if !isFA || fa.X != ssa.Value(phi) {
+						walk = false
+					}
+				}
+				if walk {
+					return true, "follows one link of a chain per iteration until nil (bounded by the length of the chain, i.e. the nesting depth that built it)"
+				}
+			}
+		}
+	}
 	try := func(iv, lim ssa.Value, op token.Token) (bool, string) {
 		phi, ok := iv.(*ssa.Phi)
 		if !ok {
